@@ -23,6 +23,25 @@ RatioPoints(lb, ub) ==
 
 InSystem(x, lb, ub) == [j \in 1..Len(x) |-> lb[j] <= x[j] /\ (ub[j] = INF \/ x[j] <= ub[j])]
 
+(* round_to_significant_digits(x, p) for a non-zero integer x: keep the p leading decimal digits, round half  *)
+(* to even at that position.  Digits(n) = number of decimal digits of n >= 1.                                  *)
+RECURSIVE Digits(_)
+Digits(n) == IF n < 10 THEN 1 ELSE 1 + Digits(n \div 10)
+RECURSIVE Pow10(_)
+Pow10(k) == IF k = 0 THEN 1 ELSE 10 * Pow10(k - 1)
+RoundSig(x, p) ==
+  IF x = 0 THEN 0
+  ELSE LET e == Digits(IF x < 0 THEN -x ELSE x)
+       IN IF e <= p THEN x ELSE RoundHalfEven(x, Pow10(e - p)) * Pow10(e - p)
+RoundSigIsTie(x, p) ==
+  LET a == IF x < 0 THEN -x ELSE x
+      e == Digits(IF a = 0 THEN 1 ELSE a)
+  IN e > p /\ 2 * (a % Pow10(e - p)) = Pow10(e - p)
+
+(* l1norm / squared l2norm of an integer vector *)
+L1Norm(v) == SumTo([k \in 1..Len(v) |-> IF v[k] < 0 THEN -v[k] ELSE v[k]], Len(v))
+L2NormSq(v) == SumTo([k \in 1..Len(v) |-> v[k] * v[k]], Len(v))
+
 (* d_equally_spaced(n, d, one_inclusive): grid points k/(n-1) (inclusive) or k/n *)
 EquallySpaced(n, d, incl) == [1..d -> {IF incl THEN R(k, n - 1) ELSE R(k, n) : k \in 0..(n - 1)}]
 =============================================================================
